@@ -5,7 +5,14 @@ Import ListNotations.
 Require Import Nib.C03.Model Nib.C03.Ref Nib.C03.Spec.
 Local Open Scope Z_scope.
 
-Definition case : Type := trace.
+Record prog_case := {
+  pc_quot : Z;        (* params.RefundQuotientEIP3529 as linked into the binary *)
+  pc_refund : Z;      (* StateDB refund counter after execution *)
+  pc_used_pre : Z;    (* intrinsic gas + gas used by the top frame, before the refund; -1 = unknown *)
+  pc_nib : prog_obs; pc_geth : prog_obs
+}.
+
+Inductive case : Type := CSeq (t : trace) | CProg (p : prog_case).
 
 (** the Nibiru model's observations: return values + the keeper table after each Commit *)
 Fixpoint model_obs (as_ : list addr) (ks : list key) (k : keeper) (txs : list (list op)) : list tx_obs :=
@@ -18,15 +25,28 @@ Fixpoint model_obs (as_ : list addr) (ks : list key) (k : keeper) (txs : list (l
 
 (** model output ≠ observed: (i) the StateDB model vs Nibiru on EVERY case (also malformed ones);
     (ii) on protocol-obeying cases the reference semantics vs go-ethereum, up to empty accounts *)
-Definition mismatch (c : case) : bool :=
+Definition mismatch_seq (c : trace) : bool :=
   negb (list_eqb obs_eqb (model_obs (t_addrs c) (t_keys c) empty_keeper (t_txs c)) (t_nib c)) ||
   (wf_txs_b (t_addrs c) (t_keys c) empty_world (t_txs c) &&
    negb (list_eqb obs_eqb (norm_all (t_txs c) (ref_obs (t_addrs c) (t_keys c) empty_world (t_txs c)))
                           (norm_all (t_txs c) (t_geth c)))).
 
-Definition violates (c : case) : bool := negb (Pb c).
+(** the refund arithmetic of ApplyEvmMsg as modelled by [gas_to_refund] *)
+Definition mismatch_prog (p : prog_case) : bool :=
+  if p_rej (pc_nib p) || (pc_used_pre p <? 0) then false
+  else negb (p_gas (pc_nib p) =? pc_used_pre p - gas_to_refund (pc_quot p) (pc_refund p) (pc_used_pre p)).
+
+Definition mismatch (c : case) : bool :=
+  match c with CSeq t => mismatch_seq t | CProg p => mismatch_prog p end.
+
+Definition violates (c : case) : bool :=
+  match c with CSeq t => negb (Pb t) | CProg p => negb (Pprog_b (pc_nib p) (pc_geth p)) end.
 
 (** case constructors used by the generated cases file *)
 Definition mk_obs (rs : list ret) (tb : list arow) : tx_obs := {| o_rets := rs; o_table := tb |}.
 Definition mk_case (as_ : list addr) (ks : list key) (txs : list (list op)) (n g : list tx_obs) : case :=
-  {| t_addrs := as_; t_keys := ks; t_txs := txs; t_nib := n; t_geth := g |}.
+  CSeq {| t_addrs := as_; t_keys := ks; t_txs := txs; t_nib := n; t_geth := g |}.
+Definition mk_pobs (rej : bool) (gas err : Z) (ret logs : list Z) (st : list arow) : prog_obs :=
+  {| p_rej := rej; p_gas := gas; p_err := err; p_ret := ret; p_logs := logs; p_state := st |}.
+Definition mk_prog (quot refund used_pre : Z) (n g : prog_obs) : case :=
+  CProg {| pc_quot := quot; pc_refund := refund; pc_used_pre := used_pre; pc_nib := n; pc_geth := g |}.
